@@ -390,6 +390,7 @@ class SimAccessory:
         self.verify_policy = lambda conn: "ok"
         self.on_request = None
         self.on_secure = None              # callback(conn) once a session is established on the accessory side
+        self.setup_handler = None          # callable(request TLV items) -> raw reply bytes for POST /pair-setup (C03 end to end)
         self.write_status = {}             # (aid, iid) -> HAP status for writes
         self.subscribe_status = {}         # (aid, iid) -> HAP status for ev requests
         self.values = {}
@@ -415,6 +416,8 @@ class SimAccessory:
         t = req.target
         if t == "/pair-verify":
             return self.pair_verify(conn, req)
+        if t == "/pair-setup" and req.method == "POST" and self.setup_handler is not None:
+            return conn.send_http(200, "OK", self.setup_handler(tlv_dec(req.body)), ctype="application/pairing+tlv8")
         if not conn.secure_rx:
             return conn.send_http(470, "Connection Authorization Required", b'{"status":-70401}')
         if t == "/accessories" and req.method == "GET":
